@@ -17,7 +17,7 @@ import (
 )
 
 // Value is nil, bool, int64, float64, string, *Table, *Func, *Coro or *RTErr.
-type Value interface{}
+type Value = interface{}
 
 type Table struct {
 	hash map[interface{}]Value
